@@ -208,7 +208,7 @@ static const double K_EULER = 1.0;          // ExplicitEuler sanity row: |dE| <=
 
 int main(int argc, char** argv) {
     verif::Run run("C11", argc, argv);
-    run.setDeadline(900, 3000);
+    run.setDeadline(1200, 7200);
     const bool th = run.thorough();
     const int valueSet = (int)(((run.seed % 3) + 3) % 3);
     const double T = 1.0; const int NREPORT = 10;
@@ -239,6 +239,7 @@ int main(int argc, char** argv) {
         Built B;
         try { B = buildSystem(ms, u.fset, u.cons, valueSet); }
         catch (const std::exception& e) { run.count("skipped:build-threw"); if (run.verbose) printf("build threw: %s\n", e.what()); return; }
+        if (B.s0.getNU() == 0) { run.count("trivial:no-mobility(all-Weld)"); return; }     // (CPodesIntegrator segfaults on a system without state variables: see notes)
         FILE* dump = dumpPath.empty() ? nullptr : fopen((dumpPath + "." + std::to_string(ui)).c_str(), "w");
         std::vector<int> il = integs;
         if (u.cons == C_NONE && (u.fset == F_GRAV || u.fset == F_GRAV_SPRINGS) && (u.model % 12) == 0) il.push_back(I_EULER);   // sanity row on a few cells
